@@ -139,6 +139,7 @@ class Choice:
     defaults: List[Tuple[str, Optional[str]]] = field(default_factory=list)
     children: List[Any] = field(default_factory=list)
     help: Optional[str] = None
+    extra: List[str] = field(default_factory=list)  # raw extra option lines
 
 
 @dataclass
@@ -231,6 +232,8 @@ def render_node(n, ind, out):
             out.append(q + "depends on " + d)
         for v, c in n.defaults:
             out.append(q + "default " + v + _cond(c))
+        for x in n.extra:
+            out.append(q + x)
         if n.help:
             out.append(q + "help")
             for line in n.help.split("\n"):
